@@ -293,6 +293,18 @@ def check(tier, replay=None):
     lines = [l for _, ops in scen for l in ops]
     model_ok = proof.ok or os.path.exists(core.lean_driver())
     rc, impl, model, err = tiec.run_both(binary, lines, model_ok)
+    if rc != 0 and len(impl) < len(lines):
+        # the real code died (abort / segfault / stack overflow) in the middle of the op file: the scenario containing the first operation that produced
+        # no output is the failing input; it is replayed alone to make sure it fails by itself
+        pos = 0
+        for ty, ops in scen:
+            if pos + len(ops) > len(impl):
+                rc2, impl2, _, err2 = tiec.run_both(binary, ops, False)
+                r.violation({"kind": "failing-input", "what": "the implementation crashed (process killed) while executing this operation sequence",
+                             "scenario": ty, "input": "\n".join(ops), "impl": "\n".join(impl[pos:]), "rc": rc, "alone_rc": rc2, "stderr": err[-800:],
+                             "replay_cmd": "./check C19 --replay <this file>"}, no_input=False)
+                return r.finish(TRUSTED)
+            pos += len(ops)
     if len(impl) != len(lines) or (model is not None and len(model) != len(lines)):
         r.violation({"kind": "obligation-broken", "no_longer_checks": [f"harness/model output length impl={len(impl)} model={None if model is None else len(model)} ops={len(lines)} rc={rc}"], "stderr": err[-800:]}, no_input=True)
         return r.finish(TRUSTED)
